@@ -20,6 +20,7 @@ import (
 	"context"
 	"errors"
 	"fmt"
+	"io"
 	stdnet "net"
 	"os"
 	"os/exec"
@@ -704,6 +705,10 @@ func isFatalError(err error, req proto.Message) bool {
 	case errors.Is(err, ttrpc.ErrProtocol):
 		return true
 	case errors.Is(err, context.DeadlineExceeded):
+		return true
+	case errors.Is(err, io.ErrUnexpectedEOF):
+		// The connection ended in the middle of a frame or message. ttrpc reports
+		// this as ErrClosed only if the caller was already waiting for the response.
 		return true
 	case errors.Is(err, proto.Error):
 		// The plugin broke the protocol if its response cannot be decoded. Failing
